@@ -2,6 +2,7 @@
  * Kani obligations: the trace's concrete values (kani --concrete-playback=print) are stored in the replay file.
  * Verus obligations: executable mirrors of the contracts (crate /verif/replay, linked against a scratch copy of
    /repo's working tree) are searched over a small exhaustive domain.  Never decides a pass."""
+import re
 import os, json, subprocess, time, shutil
 from vlib import VERIF, REPO, WORK
 import kanilib
@@ -85,10 +86,13 @@ def search(prop, failing, kres, tier):
             grp = f.get("kani_group")
             if grp and "fragment_unit" in KANI_GROUPS.get(grp, {}):
                 gsrc = kres.get("frag_src", {}).get(grp, gsrc)
-            pb = kanilib.concrete_playback(gsrc, h, extra_args=KANI_GROUPS.get(grp, {}).get("args"), group=grp)
+            # the same arguments the failing run had (a bounded entry may carry its own, e.g. an unwindset)
+            pb = kanilib.concrete_playback(gsrc, h, extra_args=f.get("kani_args") or KANI_GROUPS.get(grp, {}).get("args"), group=grp)
             if pb:
                 rep = kanilib.playback(prop, grp, pb) if grp else {"reproduced": None, "tail": "no group"}
+                m = re.search(r'Check for `[^`]*`: "(.*?)"\n', pb, re.S)
                 out["input"] = {"kind": "kani-concrete-playback", "harness": h, "group": grp, "unit_test": pb,
+                                "playback_is_for_check": m.group(1) if m else None,
                                 "replayed_on_real_code": rep}
                 return out
     targets = mirror_targets(prop, failing)
